@@ -86,6 +86,11 @@ for _pid, _fams in {"C01": ["HKARITH", "HKROUND", "HKPACK"], "C02": ["HKROUND", 
     PROPS[_pid]["helper_families"] = _fams
 for _pid in PROPS:
     PROPS[_pid]["static_modules"] = PROPS[_pid]["static_modules"] + ["DecProofs.Static.Translated"]
+# theorems about the helper routines (hand-written code-shaped models, tied by the hk_* correspondence)
+for _pid in ("C01", "C02"):
+    PROPS[_pid]["theorem_modules"] = PROPS[_pid]["theorem_modules"] + ["DecProofs.Properties.C02RoundHelpers"]
+for _pid in ("C01", "C04", "C09", "C10", "C11", "C13"):
+    PROPS[_pid]["theorem_modules"] = PROPS[_pid]["theorem_modules"] + ["DecProofs.Properties.C13PackHelpers"]
 
 # secondary build configuration of C02 (thorough tier): the tininess-after-rounding cargo feature
 PROPS["C02"]["feature_configs"] = [{"feature": "tiny_after", "judge_tiny_after": True}]
